@@ -92,7 +92,11 @@ func verifC08GrpcTx(kind int, withMeta bool, index *uint64) *old_faithful_grpc.T
 
 // --- block fetch model (the real MultiEpoch.GetBlock is renamed) --------------------------------------
 
-var verifC08BlockCalls int
+var (
+	verifC08BlockCalls int
+	verifC08Rpc        int // 0 StreamBlocks, 1 StreamTransactions
+	verifC08Focus      int // 0 slot ranges, 1 filters, 2 cancelled stream
+)
 
 func (multi *MultiEpoch) GetBlock(ctx context.Context, params *old_faithful_grpc.BlockRequest) (*old_faithful_grpc.BlockResponse, error) {
 	verifAssert(params != nil, "C08.grpc_stream: GetBlock called without a request")
@@ -101,7 +105,12 @@ func (multi *MultiEpoch) GetBlock(ctx context.Context, params *old_faithful_grpc
 		// later slots of the range: skipped slots
 		return nil, status.Errorf(codes.NotFound, "Slot %d was skipped, or missing in long-term storage", params.Slot)
 	}
-	switch verifChoice("GetBlock", 4) {
+	outcome := 3
+	if verifC08Focus != 1 {
+		// (the filter-focused runs always serve a block with transactions)
+		outcome = verifChoice("GetBlock", 4)
+	}
+	switch outcome {
 	case 0:
 		return nil, status.Errorf(codes.NotFound, "Slot %d was skipped, or missing in long-term storage", params.Slot)
 	case 1:
@@ -111,8 +120,12 @@ func (multi *MultiEpoch) GetBlock(ctx context.Context, params *old_faithful_grpc
 	}
 	b := &old_faithful_grpc.BlockResponse{Slot: params.Slot}
 	zero := uint64(0)
-	withMeta := verifChoice("block.meta", 2) == 1
-	switch verifChoice("block.txs", 4) {
+	withMeta := true // the meta bytes are opaque; what the parsers make of them is chosen by verifC08ParseAnyMeta
+	nShapes := 4
+	if verifC08Focus == 1 {
+		nShapes = 3 // single-transaction blocks
+	}
+	switch verifChoice("block.txs", nShapes) {
 	case 0:
 		b.Transactions = []*old_faithful_grpc.Transaction{verifC08GrpcTx(0, withMeta, &zero)}
 	case 1:
@@ -133,15 +146,23 @@ func (multi *MultiEpoch) GetBlock(ctx context.Context, params *old_faithful_grpc
 var verifC08MetaErrorIsFatal bool
 
 func verifC08ParseAnyMeta(buf []byte) (any, error) {
-	switch verifChoice("ParseAnyTransactionStatusMeta", 5) {
+	var outcome int
+	if verifC08Rpc == 1 {
+		// loaded addresses are only read by StreamBlocks
+		outcome = []int{0, 2, 3}[verifChoice("ParseAnyTransactionStatusMeta", 3)]
+	} else {
+		outcome = verifChoice("ParseAnyTransactionStatusMeta", 4)
+	}
+	switch outcome {
 	case 0:
 		return &confirmed_block.TransactionStatusMeta{}, nil
 	case 1:
 		return &confirmed_block.TransactionStatusMeta{LoadedReadonlyAddresses: [][]byte{verifC08Payer[:]}, LoadedWritableAddresses: [][]byte{{1, 2, 3}}}, nil
 	case 2:
+		if verifChoice("legacy-meta", 2) == 1 {
+			return &metaoldest.TransactionStatusMeta{}, nil
+		}
 		return &metalatest.TransactionStatusMeta{}, nil
-	case 3:
-		return &metaoldest.TransactionStatusMeta{}, nil
 	}
 	// blockContainsAccounts logs the error and goes on to use the nil container
 	verifKnownFinding("C08-blockfilter-nil-meta", verifC08MetaErrorIsFatal)
@@ -198,6 +219,7 @@ func verifC08GetBeforeUntilSlot(
 	fetcher func(uint64, linkedlog.OffsetAndSizeAndSlot) (*ipldbindcode.Transaction, error),
 ) (gsfa.EpochToTransactionObjects, error) {
 	verifAssert(g != nil, "C08.grpc_stream: indexed branch entered without a gsfa reader")
+	verifTrace("GetBeforeUntilSlot", limit, before, until)
 	switch verifChoice("GetBeforeUntilSlot", 5) {
 	case 0:
 		return nil, errVerifC08IO
@@ -269,8 +291,10 @@ func verifC08BoolPtr(name string) *bool {
 }
 
 // account list shapes: key present in the served transactions, key absent, malformed, mixed
-func verifC08Accounts(name string) ([]string, bool) {
-	switch verifChoice(name, 5) {
+func verifC08Accounts(name string) ([]string, bool) { return verifC08AccountsN(name, 5) }
+
+func verifC08AccountsN(name string, shapes int) ([]string, bool) {
+	switch verifChoice(name, shapes) {
 	case 0:
 		return nil, false
 	case 1:
@@ -299,7 +323,11 @@ func VerifC08GrpcStream() {
 
 	// server: no epoch; epoch 0 with / without blocktime index; epoch 0 with a gsfa reader
 	nEpochs, feature := 0, 0
-	switch verifChoice("server", 4) {
+	sc := verifParam("server", -1)
+	if sc < 0 {
+		sc = verifChoice("server", 4)
+	}
+	switch sc {
 	case 1:
 		nEpochs, feature = 1, 0
 	case 2:
@@ -309,8 +337,14 @@ func VerifC08GrpcStream() {
 	}
 	multi := verifC08Server(nEpochs, 0, feature, 1)
 	verifC08BlockCalls = 0
+	verifC08Rpc = rpc
 	base := &verifC08Stream{ctx: verifC08StreamCtx()}
+	if base.ctx.Err() != nil {
+		// client already gone: explored with one plain request per server state
+		focus = 2
+	}
 
+	verifC08Focus = focus
 	rg := verifC08Ranges[0]
 	if focus == 0 {
 		rg = verifC08Ranges[verifChoice("range", len(verifC08Ranges))]
@@ -341,19 +375,41 @@ func VerifC08GrpcStream() {
 	} else {
 		req := &old_faithful_grpc.StreamTransactionsRequest{StartSlot: rg.start, EndSlot: endSlot}
 		malformed := false
-		if focus == 1 {
-			switch verifChoice("tx.filter", 6) {
+		if focus == 1 && nEpochs*feature == 0 {
+			// no epoch / no blocktime index: what follows a transaction that the filter lets
+			// through does not depend on the filter; one filter that lets vote transactions through
+			f, t := false, true
+			req.Filter = &old_faithful_grpc.StreamTransactionsFilter{Vote: &f, Failed: &t}
+		} else if focus == 1 {
+			txf := 2
+			if verifParam("two_accounts", 0) == 0 {
+				txf = verifChoice("tx.filter", 3)
+			}
+			switch txf {
 			case 0:
 				// no filter
 			case 1:
 				// Vote / Failed unset, false or true
 				req.Filter = &old_faithful_grpc.StreamTransactionsFilter{Vote: verifC08BoolPtr("filter.vote"), Failed: verifC08BoolPtr("filter.failed")}
 			default:
-				t1, t2 := true, true
+				t1, t2 := verifChoice("filter.vote", 2) == 1, true
 				f := &old_faithful_grpc.StreamTransactionsFilter{Vote: &t1, Failed: &t2}
-				switch verifChoice("tx.filter.accounts", 3) {
+				lst := 0
+				if verifParam("two_accounts", 0) == 0 {
+					lst = verifChoice("tx.filter.accounts", 3)
+				}
+				switch lst {
 				case 0:
-					f.AccountInclude, malformed = verifC08Accounts("filter.include")
+					if feature&4 != 0 {
+						// gsfa branch: one goroutine per account, accounts are independent
+						if verifParam("two_accounts", 0) == 1 {
+							f.AccountInclude = []string{verifC08Key32b, verifC08Absent}
+						} else {
+							f.AccountInclude, malformed = verifC08AccountsN("filter.include", 4)
+						}
+					} else {
+						f.AccountInclude, malformed = verifC08Accounts("filter.include")
+					}
 				case 1:
 					f.AccountExclude, malformed = verifC08Accounts("filter.exclude")
 				default:
